@@ -12,7 +12,7 @@ ID = "C11"
 LEAN_TARGETS = ["BeyondVerif.Props.C11", "BeyondVerif.Props.C11Mask", "BeyondVerif.Witness.C11"]
 THEOREMS = [
     "BeyondVerif.C11.earth_constants",
-    "BeyondVerif.C11.station_on_ellipsoid",
+    "BeyondVerif.C11.station_on_ellipsoid_partial",
     "BeyondVerif.C11.station_height",
     "BeyondVerif.C11.normal_is_ellipsoid_normal",
     "BeyondVerif.C11.topo_axes",
@@ -61,7 +61,10 @@ ASSUMPTIONS = [
     "theorems are over R; the implementation computes in IEEE doubles",
     "mask tables follow the documented convention (strictly increasing azimuths, last azimuth 2 pi); other tables are modelled and compared in the correspondence but no theorem speaks about them",
 ]
-NOT_COVERED = ["light-time / signal-path effects in Range and Doppler (the code has none; the measures are instantaneous geometric quantities)",
+NOT_COVERED = ["the clause 'WGS-84' itself: station_on_ellipsoid_partial is about the ellipsoid (Earth.r, Earth.f) of constants.py, whose radius is not WGS-84's (counter-witness in Witness/C11.lean, known finding)",
+               "angular rates theta_dot / phi_dot of the spherical form (not part of the property; compared in the correspondence only)",
+               "get_mask when no mask is set (raises ValueError) and create_station(mask=<ndarray>) (raises on `if mask`): outside the property",
+               "light-time / signal-path effects in Range and Doppler (the code has none; the measures are instantaneous geometric quantities)",
                "visibility() iteration and the AOS/LOS/mask listeners (C10)"]
 OPEN = ["the ellipsoid has the WGS-84 flattening but the EGM-96 equatorial radius 6378136.3 m: stations are 0.7 m closer to the geocentre than WGS-84 coordinates say (known finding C11-station-ellipsoid-radius); all theorems are stated for the constants as they are in constants.py"]
 RULE = ("correspondence: stations on a lat/lon/alt grid (all quadrants, near-polar) + random; targets from 1 km to lunar distance in ITRF with velocities; ops geo / topom / "
@@ -546,7 +549,7 @@ def build_generated():
         raise py2lean.Untranslatable("_geodetic_to_cartesian signature / return value changed")
     parts.append("/-- `TopocentricFrame._geodetic_to_cartesian` (position part; the velocity part is the literal 0, 0, 0) -/\n" +
                  py2lean.translate_slice(spath, "TopocentricFrame._geodetic_to_cartesian", ["lat", "lon", "alt"], ["x", "y", "z"], "geodeticToCartesian",
-                                         result_expr="[x, y, z]", consts={"Earth.r": "earthR", "Earth.e": "earthE"}) + "\n")
+                                         result_expr="[x, y, z]", consts={"Earth.r": "earthR", "Earth.e": "earthE", "Earth.f": "earthF"}) + "\n")
     # 4. orient.py: the topocentric matrix
     otree = _tree("frames", "orient.py")
     ofn = py2lean.find_function(otree, "TopocentricOrientation.__init__")
